@@ -21,7 +21,7 @@ Definition buffering_pass (s : state) : state :=
 Theorem C10_buffering_mutant_refuted :
   let ops := [OTimer 0 [116]; ORecord 0 5] in
   let s := buffering_pass (run san_id FPlain (fun _ => 0) ([], []) ops) in
-  ~ delivered FPlain s (records san_id (fun _ => 0) ([], []) (ops ++ [OPass])).
+  ~ delivered FPlain s (records san_id FPlain (fun _ => 0) ([], []) (ops ++ [OPass])).
 Proof. vm_compute. intros [Hh _]. discriminate. Qed.
 Print Assumptions C10_buffering_mutant_refuted.
 
@@ -30,6 +30,6 @@ Print Assumptions C10_buffering_mutant_refuted.
 Theorem C10_no_precedence_mutant_refuted :
   let ops := [OTimer 0 [116]; ORecord 0 5] in
   let s := run san_id FBoth (fun _ => 0) ([], []) ops in
-  ~ delivered FBoth (add_log s [Ev 3 [5] [[116]]]) (records san_id (fun _ => 0) ([], []) ops).
+  ~ delivered FBoth (add_log s [Ev 3 [5] [[116]]]) (records san_id FBoth (fun _ => 0) ([], []) ops).
 Proof. vm_compute. intros [_ Hh]. discriminate. Qed.
 Print Assumptions C10_no_precedence_mutant_refuted.
